@@ -5,8 +5,10 @@ package props
 import (
 	"bytes"
 	"fmt"
+	"sort"
 	"testing"
 
+	u "github.com/utreexo/utreexo"
 	"pgregory.net/rapid"
 	"verifharness/model"
 )
@@ -19,6 +21,11 @@ type C06Step struct {
 type C06Case struct {
 	Cfgs  []Cfg     `json:"cfgs"` // pollard, full map, partial map
 	Steps []C06Step `json:"steps"`
+	// Late: a map forest (full or partial) created from the BARE ROOTS right before step LateAt; it learns
+	// what each later block spends through Verify(remember), applies the blocks and follows every undo -
+	// also the undos of blocks that were applied before it existed
+	Late   *Cfg `json:"late,omitempty"`
+	LateAt int  `json:"late_at,omitempty"`
 }
 
 func genC06(t *rapid.T) C06Case {
@@ -76,6 +83,10 @@ func genC06(t *rapid.T) C06Case {
 			bb := b
 			c.Steps = append(c.Steps, C06Step{Op: "block", B: &bb})
 		}
+	}
+	if rapid.IntRange(0, 3).Draw(t, "late") == 0 {
+		c.Late = &Cfg{Kind: "map", Full: rapid.Bool().Draw(t, "late-full"), Rows: 63, Ext: rapid.IntRange(0, 3).Draw(t, "late-ext") == 0}
+		c.LateAt = rapid.IntRange(0, len(c.Steps)-1).Draw(t, "late-at")
 	}
 	return c
 }
@@ -146,7 +157,45 @@ func runC06(c C06Case) *Result {
 		}
 		return out
 	}
+	// the late joiner and the slots it can be expected to prove: what it verified with remember or was
+	// told to remember (a full forest: everything added) since it exists, minus what was spent
+	var late *Inst
+	lateTracked := map[int]bool{}
+	lateCheck := func(when string) error {
+		if late == nil {
+			return nil
+		}
+		v := f.View()
+		if err := late.checkRoots(v); err != nil {
+			return fmt.Errorf("%s: started from the bare roots before step %d: %v", when, c.LateAt, err)
+		}
+		var slots []int
+		for s := range lateTracked {
+			slots = append(slots, s)
+		}
+		sort.Ints(slots)
+		for _, sub := range proveSubsets(slots) {
+			hs := f.HashesOf(sub)
+			got, err := late.M.Prove(cloneHashes(hs))
+			if err != nil {
+				return fmt.Errorf("%s: %s started from the bare roots before step %d: Prove(slots %v) failed: %v", when, late.Cfg, c.LateAt, sub, err)
+			}
+			if want := v.Proof(hs); !eqProof(got, want) {
+				return fmt.Errorf("%s: %s started from the bare roots before step %d: Prove(slots %v) = %s, canonical %s", when, late.Cfg, c.LateAt, sub, proofStr(got), proofStr(want))
+			}
+		}
+		return nil
+	}
 	for i, st := range c.Steps {
+		if c.Late != nil && i == c.LateAt {
+			v := f.View()
+			m := u.NewMapPollardFromRoots(cloneHashes(v.Roots), v.N, c.Late.Full)
+			if c.Late.Ext {
+				extStores(&m)
+			}
+			late = &Inst{Cfg: *c.Late, M: &m}
+			res.class(fmt.Sprintf("late-joiner:full=%v", c.Late.Full))
+		}
 		switch st.Op {
 		case "block":
 			if st.B == nil {
@@ -189,6 +238,25 @@ func runC06(c C06Case) *Result {
 					return res.failf("step %d: %s Modify rejected a valid block: %v", i, in.Cfg, err)
 				}
 			}
+			if late != nil {
+				if len(delH) > 0 {
+					if err := late.M.Verify(cloneHashes(delH), cloneProof(proof), true); err != nil {
+						return res.failf("step %d: %s started from the bare roots before step %d: Verify(remember) of the block's honest proof: %v", i, late.Cfg, c.LateAt, err)
+					}
+				}
+				if err := late.M.Modify(append(adds[:0:0], adds...), cloneHashes(delH), cloneProof(proof)); err != nil {
+					return res.failf("step %d: %s started from the bare roots before step %d: Modify rejected a valid block whose deletions it had just verified with remember: %v", i, late.Cfg, c.LateAt, err)
+				}
+				for _, s := range b.Del {
+					delete(lateTracked, s)
+				}
+				for k := 0; k < b.Add; k++ {
+					if late.M.Full || inSet(b.Rem, k) {
+						lateTracked[len(f.Hashes)+k] = true
+					}
+				}
+				res.count("late-joiner-blocks", 1)
+			}
 			applyToModel(f, b)
 			for _, s := range b.Del {
 				delete(tracked, s)
@@ -204,6 +272,9 @@ func runC06(c C06Case) *Result {
 			}
 			stack = append(stack, fr)
 			if err := checkAll(fmt.Sprintf("after block at step %d", i)); err != nil {
+				return res.failf("%v", err)
+			}
+			if err := lateCheck(fmt.Sprintf("after block at step %d", i)); err != nil {
 				return res.failf("%v", err)
 			}
 		case "undo":
@@ -228,6 +299,20 @@ func runC06(c C06Case) *Result {
 					return res.failf("step %d: %s Undo (depth %d) of block {del %v, add %d} failed: %v", i, in.Cfg, depth, fr.b.Del, fr.b.Add, err)
 				}
 			}
+			if late != nil {
+				if err := late.M.Undo(uint64(fr.b.Add), u.Proof{Targets: cloneU64(fr.proofT), Proof: cloneHashes(fr.proofH)}, cloneHashes(fr.delH), cloneHashes(fr.roots)); err != nil {
+					return res.failf("step %d: %s started from the bare roots before step %d: Undo (depth %d) of block {del %v, add %d} failed: %v", i, late.Cfg, c.LateAt, depth, fr.b.Del, fr.b.Add, err)
+				}
+				for s := range lateTracked {
+					if s >= nBefore {
+						delete(lateTracked, s)
+					}
+				}
+				for _, s := range fr.b.Del {
+					lateTracked[s] = true // restored from the undo record, proof included
+				}
+				res.count("late-joiner-undos", 1)
+			}
 			f = fr.before
 			for s := range tracked {
 				if s >= nBefore {
@@ -238,6 +323,9 @@ func runC06(c C06Case) *Result {
 				tracked[s] = true
 			}
 			if err := checkAll(fmt.Sprintf("after undo (depth %d) at step %d", depth, i)); err != nil {
+				return res.failf("%v", err)
+			}
+			if err := lateCheck(fmt.Sprintf("after undo (depth %d) at step %d", depth, i)); err != nil {
 				return res.failf("%v", err)
 			}
 			// observational identity with the snapshot taken before the block
@@ -282,6 +370,23 @@ func runC06(c C06Case) *Result {
 					return res.failf("step %d: %s: restoring the forest from its own %d bytes failed: %v", i, in.Cfg, buf.Len(), err)
 				}
 				insts[k] = in2
+			}
+			if late != nil {
+				var buf bytes.Buffer
+				if _, err := serialize(late, &buf); err != nil {
+					return res.failf("step %d: %s: writing the forest failed: %v", i, late.Cfg, err)
+				}
+				in2, _, err, perr := restore(late.Cfg, bytes.NewReader(buf.Bytes()))
+				if perr != nil {
+					err = perr
+				}
+				if err != nil {
+					return res.failf("step %d: %s: restoring the forest from its own %d bytes failed: %v", i, late.Cfg, buf.Len(), err)
+				}
+				late = in2
+				if err := lateCheck(fmt.Sprintf("after write+restore at step %d", i)); err != nil {
+					return res.failf("%v", err)
+				}
 			}
 			if err := checkAll(fmt.Sprintf("after write+restore at step %d", i)); err != nil {
 				return res.failf("%v", err)
